@@ -83,157 +83,8 @@ func runC04(c *core.Ctx, o Options) {
 		"F6: each accepted connection gets the net.Conn returned by Accept in the same iteration, a fresh Conn and a fresh handler with fresh channels; nothing is cached on the Acceptor. F7: every message received from Reader() is passed to ServeIncoming and every message received from incoming to serve. " +
 		"Not decided: timing; the kernel or a custom net.Conn."
 	fns := libFuncs(c)
-	rr := c.Func("", "Conn.runReader")
-	if !c.Anchor("connection reader", rr != nil, "(*Conn).runReader", posOf(rr)) {
+	if !framingRules(c, fns) {
 		return
-	}
-	readerF := c.Field("", "Conn", "reader")
-	// ---- F1
-	var newReader, read *ssa.Call
-	nNew, nRead := 0, 0
-	for _, fn := range fns {
-		an.AllInstrs(fn, func(in ssa.Instruction) {
-			cc := an.CallOf(in)
-			if cc == nil {
-				return
-			}
-			if cc.IsInvoke() && an.TypeIs(cc.Value.Type(), "net", "Conn") && strings.HasPrefix(cc.Method.Name(), "Read") {
-				c.Ob("F1", an.NameOf(fn), "direct read of the socket", in.Pos()).Fail("net.Conn.%s bypasses the connection's buffered reader: bytes would be taken out of the framed stream", cc.Method.Name())
-			}
-			cal := an.StaticCallee(cc)
-			if cal == nil || cal.Pkg == nil || cal.Pkg.Pkg.Path() != "bufio" {
-				return
-			}
-			call, _ := in.(*ssa.Call)
-			switch {
-			case an.NameOf(cal) == "NewReader" || an.NameOf(cal) == "NewReaderSize":
-				nNew++
-				newReader = call
-			case cal.Signature.Recv() != nil && an.TypeIs(cal.Signature.Recv().Type(), "bufio", "Reader") && (strings.HasPrefix(an.NameOf(cal), "Read") || an.NameOf(cal) == "Peek" || an.NameOf(cal) == "Discard" || an.NameOf(cal) == "WriteTo"):
-				nRead++
-				read = call
-				c.Check(an.NameOf(cal) == "ReadBytes", "F1", an.NameOf(fn), "stream is consumed with ReadBytes", in.Pos(), "bufio.Reader.ReadBytes", "the stream is consumed with bufio.Reader."+an.NameOf(cal)+": unlike ReadBytes it can fail on, truncate or alias a long field")
-			}
-		})
-	}
-	okNR := nNew == 1 && newReader != nil && newReader.Parent() == rr && !inLoop(newReader.Block()) && an.Render(newReader.Call.Args[0]) == "c.conn"
-	c.Check(okNR, "F1", "Conn.runReader", "one buffered reader per connection, created outside the read loop, on the connection's socket", posOf(rr), "bufio.NewReader(c.conn) once, before the loop",
-		fmt.Sprintf("%d bufio readers; the reader must be created once in runReader, outside the loop, over c.conn (a reader created per iteration drops buffered bytes)", nNew))
-	okRd := nRead == 1 && read != nil && read.Parent() == rr && newReader != nil && read.Call.Args[0] == ssa.Value(newReader)
-	delim, isC := int64(-1), false
-	if read != nil && len(read.Call.Args) == 2 {
-		delim, isC = an.ConstInt(read.Call.Args[1])
-	}
-	c.Check(okRd && isC && delim == 1, "F1", "Conn.runReader", "single read site: ReadBytes(SOH) on that reader", posOf(rr), "r.ReadBytes(1)", fmt.Sprintf("%d read sites / delimiter %d", nRead, delim))
-	if read == nil || read.Parent() != rr {
-		return
-	}
-	// ---- F2
-	var msgPhi *ssa.Phi
-	var appendCall *ssa.Call
-	an.AllInstrs(rr, func(in ssa.Instruction) {
-		call, ok := in.(*ssa.Call)
-		if !ok {
-			return
-		}
-		if b, isB := call.Call.Value.(*ssa.Builtin); isB && b.Name() == "append" && len(call.Call.Args) == 2 {
-			if ex, ok := call.Call.Args[1].(*ssa.Extract); ok && ex.Tuple == ssa.Value(read) && ex.Index == 0 {
-				if phi, ok := call.Call.Args[0].(*ssa.Phi); ok {
-					msgPhi, appendCall = phi, call
-				}
-			}
-		}
-	})
-	if !c.Anchor("partial-message buffer", msgPhi != nil, "loop-carried local appended with the bytes read", posOf(rr)) {
-		return
-	}
-	// the hand-off
-	var sendSel *ssa.Select
-	sendState := -1
-	an.AllInstrs(rr, func(in ssa.Instruction) {
-		if sel, ok := in.(*ssa.Select); ok {
-			for i, st := range sel.States {
-				if st.Dir == 1 {
-					if f, _ := an.LoadedField(st.Chan); f == readerF {
-						sendSel, sendState = sel, i
-					}
-				}
-			}
-		}
-		if snd, ok := in.(*ssa.Send); ok {
-			if f, _ := an.LoadedField(snd.Chan); f == readerF {
-				c.Ob("F2", "Conn.runReader", "hand-off is a select case", snd.Pos()).Fail("bare send on Conn.reader (C13.Z1)")
-			}
-		}
-	})
-	if !c.Anchor("hand-off on Conn.reader", sendSel != nil, "select case sending on c.reader", posOf(rr)) {
-		return
-	}
-	c.Check(sendSel.States[sendState].Send == ssa.Value(appendCall), "F2", "Conn.runReader", "the message handed off is the accumulated buffer including the segment just read", sendSel.Pos(),
-		"c.reader <- append(msg, buff...)", "the value sent on Conn.reader is "+an.Render(sendSel.States[sendState].Send)+", not the buffer with the last segment appended")
-	head := msgPhi.Block()
-	var bad []string
-	for i, pred := range head.Preds {
-		v := msgPhi.Edges[i]
-		if !blockReachable(read.Block(), pred) && pred != read.Block() {
-			// entry edge
-			if !isFreshEmpty(v) {
-				bad = append(bad, "the buffer does not start empty: "+an.Render(v))
-			}
-			continue
-		}
-		switch {
-		case v == ssa.Value(appendCall):
-			// segment appended, loop continues
-		case isFreshEmpty(v):
-			// allowed only after the hand-off succeeded on this edge
-			if !(sendSel.Block().Dominates(pred) && pred != sendSel.Block()) {
-				bad = append(bad, "the buffer is reset on a way back to the loop head that does not pass the hand-off: the message read so far is dropped")
-			}
-		case v == ssa.Value(msgPhi):
-			bad = append(bad, fmt.Sprintf("a way back to the loop head (from block %s) keeps the old buffer: the bytes ReadBytes returned on that iteration are dropped", pred.Comment))
-		default:
-			bad = append(bad, "after a hand-off the buffer is re-bound to "+an.Render(v)+", which is not a fresh allocation: the next message can overwrite the one just delivered")
-		}
-	}
-	ob := c.Ob("F2", "Conn.runReader", "bytes read are never dropped; after a hand-off the buffer is a fresh allocation", head.Instrs[0].Pos())
-	if len(bad) > 0 {
-		ob.Fail("%s", bad[0])
-	} else {
-		ob.Ok("%d ways into the loop head: 1 initial, others append the segment or follow the hand-off with a fresh buffer", len(head.Preds))
-	}
-	// the error path leaves the loop
-	paths, _ := an.EnumPaths(rr, 4096)
-	errLoops := false
-	readErr := an.Render(read) + "#1 != nil"
-	for _, p := range paths {
-		if p.Loop && p.Has(readErr) {
-			errLoops = true
-		}
-	}
-	c.Check(!errLoops, "F2", "Conn.runReader", "a read error ends the reader", read.Pos(), "err != nil → return", "the loop continues after a read error: ReadBytes returns the bytes consumed so far together with the error, and they are lost")
-	// ---- F3 end-of-message test
-	seg := an.Render(read) + "#0"
-	okF3, seenSend := true, false
-	why := ""
-	for _, p := range paths {
-		if !p.Passes(sendSel) {
-			continue
-		}
-		seenSend = true
-		form1 := p.Has("3 <= len("+seg+")") && p.Has(`bytes.Equal(`+seg+`[0:3], []byte("10="))`)
-		form2 := p.Has(`bytes.HasPrefix(` + seg + `, []byte("10="))`)
-		if !form1 && !form2 {
-			okF3 = false
-			why = p.CondString()
-		}
-	}
-	c.Check(okF3 && seenSend, "F3", "Conn.runReader", "hand-off exactly when the segment starts with the CheckSum tag and '='", sendSel.Pos(), `len(seg) ≥ 3 ∧ seg[0:3] == "10="`, "the end-of-message test is not a start-anchored comparison of the segment with \"10=\": "+why)
-	// and conversely: a segment that passes the test is always handed off (no path with the test true that loops without the select)
-	for _, p := range paths {
-		if p.Loop && !p.Passes(sendSel) && (p.Has(`bytes.Equal(`+seg+`[0:3], []byte("10="))`) || p.Has(`bytes.HasPrefix(`+seg+`, []byte("10="))`)) {
-			c.Ob("F3", "Conn.runReader", "a complete message is always handed off", sendSel.Pos()).Fail("a path recognises the end of a message but continues reading without the hand-off: %s", p.CondString())
-		}
 	}
 	// ---- F4 producers / consumers
 	census := func(field string, typ string) (senders, receivers []string) {
@@ -370,32 +221,7 @@ func runC04(c *core.Ctx, o Options) {
 			})
 		}
 	}
-	// Conn.Write writes its argument with one net.Conn.Write
-	if cw := c.Func("", "Conn.Write"); c.Anchor("Conn.Write", cw != nil, "(*Conn).Write", posOf(cw)) {
-		nW := 0
-		okArg := true
-		var wcall *ssa.Call
-		an.AllInstrs(cw, func(in ssa.Instruction) {
-			if call, ok := in.(*ssa.Call); ok && call.Call.IsInvoke() && call.Call.Method.Name() == "Write" {
-				nW++
-				wcall = call
-				if call.Call.Args[0] != ssa.Value(cw.Params[1]) {
-					okArg = false
-				}
-			}
-		})
-		okSucc := false
-		if wcall != nil {
-			ps, _ := an.EnumPaths(cw, 64)
-			okSucc = true
-			for _, p := range ps {
-				if p.Return != nil && len(p.Results) == 1 && p.Results[0] == "nil" && !p.Passes(wcall) {
-					okSucc = false
-				}
-			}
-		}
-		c.Check(nW == 1 && okArg && okSucc && !hasGo(cw), "F4", "Conn.Write", "writes the whole message with one net.Conn.Write on its success path", cw.Pos(), "conn.Write(msg) once", fmt.Sprintf("%d socket writes; argument is the message: %v; success implies written: %v", nW, okArg, okSucc))
-	}
+	checkConnWrite(c, "F4")
 	// ---- F5 no go on the dispatch path
 	for _, name := range []string{"DefaultHandler.ServeIncoming", "DefaultHandler.Run", "DefaultHandler.processRemainingIncoming", "DefaultHandler.serve", "IncomingHandlerPool.Range", "HandlerPool.handlersByMsgType"} {
 		fn := c.Func("", name)
@@ -440,7 +266,16 @@ func runC04(c *core.Ctx, o Options) {
 	if ls := c.Func("", "Acceptor.ListenAndServe"); c.Anchor("accept loop", ls != nil, "Acceptor.ListenAndServe", posOf(ls)) {
 		var accept *ssa.Call
 		var serveGo *ssa.Go
-		for _, f := range an.WithAnon(ls) {
+		// the accept loop: a function literal of ListenAndServe or an unexported function of the package it starts with `go`
+		group := an.WithAnon(ls)
+		an.AllInstrs(ls, func(in ssa.Instruction) {
+			if g, ok := in.(*ssa.Go); ok {
+				if cal := an.StaticCallee(&g.Call); cal != nil && cal.Pkg == ls.Pkg && cal.Parent() == nil && !an.IsKnown(cal) {
+					group = append(group, an.WithAnon(cal)...)
+				}
+			}
+		})
+		for _, f := range group {
 			an.AllInstrs(f, func(in ssa.Instruction) {
 				if call, ok := in.(*ssa.Call); ok && call.Call.IsInvoke() && call.Call.Method.Name() == "Accept" {
 					accept = call
@@ -459,7 +294,7 @@ func runC04(c *core.Ctx, o Options) {
 		case serveGo == nil:
 			// serve may be called from a closure: then its connection argument must not come from a shared variable
 			found := false
-			for _, f := range an.WithAnon(ls) {
+			for _, f := range group {
 				an.AllInstrs(f, func(in ssa.Instruction) {
 					if cc := an.CallOf(in); cc != nil {
 						if cal := an.StaticCallee(cc); cal != nil && an.FuncIs(cal, "simplefix-go", "Acceptor.serve") {
@@ -562,10 +397,40 @@ func runC04(c *core.Ctx, o Options) {
 		checkSendChainNoSpawn(c, s, "F5")
 	}
 	checkNoMessageDropped(c, "F7")
+	checkServeIncomingHandsOver(c, "F7")
 	checkReaderQueue(c, "F8", fns)
+	checkBatchUnit(c, "F9")
+	// F10: the bytes handed to the outgoing queue are not written again — every Prepare builds its image in fresh memory (a message
+	// object that is sent twice must not overwrite the image still waiting in the queue)
+	checkImageFresh(c, "F10")
+	// F5 (who may dispatch): DefaultHandler.serve runs on the handler's own goroutine only — it is called from Run and from the
+	// drain helper Run ends with, never from the pump side (ServeIncoming) or anywhere else
+	if sv, run := c.Func("", "DefaultHandler.serve"), c.Func("", "DefaultHandler.Run"); c.Anchor("dispatcher", sv != nil && run != nil, "DefaultHandler.serve, Run", posOf(sv)) {
+		n := 0
+		for _, fn := range fns {
+			an.AllInstrs(fn, func(in ssa.Instruction) {
+				cc := an.CallOf(in)
+				if cc == nil || an.StaticCallee(cc) != sv {
+					return
+				}
+				n++
+				root := fn
+				for root.Parent() != nil {
+					root = root.Parent()
+				}
+				owner, _ := an.LogicalOwner(root)
+				okCaller := root == run || owner == run || callsDirect(run, root)
+				_, isGo := in.(*ssa.Go)
+				c.Check(okCaller && !isGo, "F5", an.NameOf(fn), "messages are dispatched by the handler's own goroutine (Run and its drain helper) only", in.Pos(), "called from Run / processRemainingIncoming",
+					an.NameOf(fn)+" calls DefaultHandler.serve: the message is dispatched on another goroutine than Run's, concurrently with and ahead of the messages still waiting in the handler's queue")
+			})
+		}
+		c.Check(n >= 2, "F5", "DefaultHandler.serve", "call sites of serve found", sv.Pos(), fmt.Sprint(n), fmt.Sprintf("%d call sites of serve", n))
+	}
+	c.Explanation += " F5 also: DefaultHandler.serve is called only from Run and the drain helper Run calls (one dispatching goroutine). F10 (= C05.K9): every Prepare builds its image in fresh memory." + " F8 also: the handler's errors channel is unbuffered — StopWithError is a rendezvous with Run, which drains the inbound queue before the reporter's tear-down can cancel the pump. F9: SendBatch takes the send mutex once, outside its loop, and hands each element to the unexported send inside the loop with no lock operation in between — a batch is handed over as a unit, so a message handed over later cannot appear in the middle of it."
 	c.Explanation += " F4 counts goroutines through helpers shared by both serve functions (a literal inside such a helper runs for each caller; an unexported method or method value handed to errgroup.Go is a goroutine of its caller). F7 also covers every receive from a byte-message channel in the root package: on each path on which the receive succeeded the value is passed on (to a call, a send, a store or the result) before the function returns or loops — a message that is only measured and dropped is lost."
 	c.Explanation += " F8: the capacity of Conn.reader is NewConn's size parameter and that argument is zero at every call site (a constant 0 or a field nothing assigns) — what the reader has queued when the connection ends is not delivered, so nothing may be queued there; no len()/cap() of a channel decides anything in the transport. (The initiating side passes the caller's bufSize: recorded finding D19.)"
-	c.RuleMin = map[string]int{"F1": 3, "F2": 3, "F3": 1, "F4": 6, "F5": 19, "F6": 12, "F7": 7, "F8": 3}
+	c.RuleMin = map[string]int{"F1": 3, "F2": 3, "F3": 1, "F4": 6, "F5": 22, "F6": 12, "F7": 8, "F8": 5, "F9": 2, "F10": 1}
 	c.MinObl = 40
 }
 
@@ -1068,6 +933,31 @@ func checkReaderQueue(c *core.Ctx, rule string, fns []*ssa.Function) {
 		})
 	}
 	c.Check(n >= 2, rule, "", "NewConn call sites found", token.NoPos, fmt.Sprint(n), fmt.Sprintf("%d call sites of NewConn", n))
+	// the handler's error hand-off is a rendezvous: the serving goroutine reports the end of the connection with StopWithError
+	// and tears the connection down (cancel) right after; with an unbuffered errors channel StopWithError returns only once Run
+	// has taken the error, and Run drains the inbound queue — including the message the pump is holding — before the tear-down
+	// can cancel the pump. A buffered channel lets the tear-down overtake the drain and the held message is dropped.
+	if ef := c.Field("", "DefaultHandler", "errors"); c.Anchor("handler error channel", ef != nil, "DefaultHandler.errors", nc.Pos()) {
+		for _, fn := range fns {
+			an.AllInstrs(fn, func(in ssa.Instruction) {
+				st, ok := in.(*ssa.Store)
+				if !ok {
+					return
+				}
+				fa, ok := st.Addr.(*ssa.FieldAddr)
+				if !ok || an.FieldOf(fa) != ef {
+					return
+				}
+				mk, isMk := st.Val.(*ssa.MakeChan)
+				k, isK := int64(-1), false
+				if isMk {
+					k, isK = an.ConstInt(mk.Size)
+				}
+				c.Check(isMk && isK && k == 0, rule, an.NameOf(fn), "the handler's error hand-off is a rendezvous (unbuffered errors channel)", st.Pos(), "make(chan error)",
+					"the handler's errors channel is "+an.Render(st.Val)+": StopWithError returns before Run has taken the error, the caller's tear-down cancels the inbound pump while it still holds a message read from the socket, and that message is never given to the handler")
+			})
+		}
+	}
 	// no len()/cap() of a channel in the transport
 	for _, fn := range fns {
 		if fn.Pkg == nil || fn.Pkg != nc.Pkg {
@@ -1085,4 +975,282 @@ func checkReaderQueue(c *core.Ctx, rule string, fns []*ssa.Function) {
 			}
 		})
 	}
+}
+
+// checkBatchUnit: the messages of one SendBatch call are handed to the connection as a unit — the send mutex is taken once, before
+// the loop, every element goes to the unexported send while it is held, and no lock operation happens inside the loop.
+func checkBatchUnit(c *core.Ctx, rule string) {
+	sb, hsend := c.Func("", "DefaultHandler.SendBatch"), c.Func("", "DefaultHandler.send")
+	hmu := c.Field("", "DefaultHandler", "mu")
+	if !c.Anchor("batch send", sb != nil && hsend != nil && hmu != nil, "DefaultHandler.SendBatch, send, mu", posOf(sb)) {
+		return
+	}
+	locksOutside, opsInLoop, sendsInLoop, otherSends := 0, 0, 0, ""
+	an.AllInstrs(sb, func(in ssa.Instruction) {
+		cc := an.CallOf(in)
+		if cc == nil {
+			return
+		}
+		if id, op, ok := an.LockOp(cc); ok && id.Field == hmu {
+			if _, isDefer := in.(*ssa.Defer); isDefer {
+				return
+			}
+			if inLoop(in.Block()) {
+				opsInLoop++
+			} else if op == "Lock" {
+				locksOutside++
+			}
+			return
+		}
+		callee := an.StaticCallee(cc)
+		if callee == hsend && inLoop(in.Block()) {
+			sendsInLoop++
+		} else if callee != nil && callee != hsend && callee.Pkg == sb.Pkg && callee.Signature.Recv() != nil && inLoop(in.Block()) {
+			// another method of the handler called per element: Send and SendRaw take the mutex per call
+			an.AllInstrs(callee, func(in2 ssa.Instruction) {
+				if c2 := an.CallOf(in2); c2 != nil {
+					if id, op, ok := an.LockOp(c2); ok && id.Field == hmu && op == "Lock" {
+						otherSends = an.NameOf(callee)
+					}
+				}
+			})
+		}
+	})
+	c.Check(locksOutside >= 1 && opsInLoop == 0, rule, "DefaultHandler.SendBatch", "the send mutex is taken once, before the loop, and not touched inside it", sb.Pos(), "mu.Lock(); for … { send }",
+		fmt.Sprintf("%d Lock outside the loop, %d lock operations inside it: between two elements of the batch another goroutine's message can take the mutex and is enqueued in the middle of the batch", locksOutside, opsInLoop))
+	c.Check(sendsInLoop >= 1 && otherSends == "", rule, "DefaultHandler.SendBatch", "each element goes to the unexported send under that mutex", sb.Pos(), "h.send(m) in the loop",
+		fmt.Sprintf("%d direct calls of send in the loop; per-element call of %s, which takes and releases the mutex itself: the batch is not handed over as a unit", sendsInLoop, otherSends))
+}
+
+// framingRules (F1–F3): the connection reader consumes the stream with one ReadBytes(SOH) site, never drops or re-slices what it
+// has read, and hands a message off exactly when the segment read starts with the CheckSum tag and '='. C16 runs them as a premise
+// (a damaged administrative message must not swallow the valid message that follows it).
+func framingRules(c *core.Ctx, fns []*ssa.Function) bool {
+	rr := c.Func("", "Conn.runReader")
+	if !c.Anchor("connection reader", rr != nil, "(*Conn).runReader", posOf(rr)) {
+		return false
+	}
+	readerF := c.Field("", "Conn", "reader")
+	// ---- F1
+	var newReader, read *ssa.Call
+	nNew, nRead := 0, 0
+	for _, fn := range fns {
+		an.AllInstrs(fn, func(in ssa.Instruction) {
+			cc := an.CallOf(in)
+			if cc == nil {
+				return
+			}
+			if cc.IsInvoke() && an.TypeIs(cc.Value.Type(), "net", "Conn") && strings.HasPrefix(cc.Method.Name(), "Read") {
+				c.Ob("F1", an.NameOf(fn), "direct read of the socket", in.Pos()).Fail("net.Conn.%s bypasses the connection's buffered reader: bytes would be taken out of the framed stream", cc.Method.Name())
+			}
+			cal := an.StaticCallee(cc)
+			if cal == nil || cal.Pkg == nil || cal.Pkg.Pkg.Path() != "bufio" {
+				return
+			}
+			call, _ := in.(*ssa.Call)
+			switch {
+			case an.NameOf(cal) == "NewReader" || an.NameOf(cal) == "NewReaderSize":
+				nNew++
+				newReader = call
+			case cal.Signature.Recv() != nil && an.TypeIs(cal.Signature.Recv().Type(), "bufio", "Reader") && (strings.HasPrefix(an.NameOf(cal), "Read") || an.NameOf(cal) == "Peek" || an.NameOf(cal) == "Discard" || an.NameOf(cal) == "WriteTo"):
+				nRead++
+				read = call
+				c.Check(an.NameOf(cal) == "ReadBytes", "F1", an.NameOf(fn), "stream is consumed with ReadBytes", in.Pos(), "bufio.Reader.ReadBytes", "the stream is consumed with bufio.Reader."+an.NameOf(cal)+": unlike ReadBytes it can fail on, truncate or alias a long field")
+			}
+		})
+	}
+	okNR := nNew == 1 && newReader != nil && newReader.Parent() == rr && !inLoop(newReader.Block()) && an.Render(newReader.Call.Args[0]) == "c.conn"
+	c.Check(okNR, "F1", "Conn.runReader", "one buffered reader per connection, created outside the read loop, on the connection's socket", posOf(rr), "bufio.NewReader(c.conn) once, before the loop",
+		fmt.Sprintf("%d bufio readers; the reader must be created once in runReader, outside the loop, over c.conn (a reader created per iteration drops buffered bytes)", nNew))
+	okRd := nRead == 1 && read != nil && read.Parent() == rr && newReader != nil && read.Call.Args[0] == ssa.Value(newReader)
+	delim, isC := int64(-1), false
+	if read != nil && len(read.Call.Args) == 2 {
+		delim, isC = an.ConstInt(read.Call.Args[1])
+	}
+	c.Check(okRd && isC && delim == 1, "F1", "Conn.runReader", "single read site: ReadBytes(SOH) on that reader", posOf(rr), "r.ReadBytes(1)", fmt.Sprintf("%d read sites / delimiter %d", nRead, delim))
+	if read == nil || read.Parent() != rr {
+		return false
+	}
+	// ---- F2
+	var msgPhi *ssa.Phi
+	var appendCall *ssa.Call
+	an.AllInstrs(rr, func(in ssa.Instruction) {
+		call, ok := in.(*ssa.Call)
+		if !ok {
+			return
+		}
+		if b, isB := call.Call.Value.(*ssa.Builtin); isB && b.Name() == "append" && len(call.Call.Args) == 2 {
+			if ex, ok := call.Call.Args[1].(*ssa.Extract); ok && ex.Tuple == ssa.Value(read) && ex.Index == 0 {
+				if phi, ok := call.Call.Args[0].(*ssa.Phi); ok {
+					msgPhi, appendCall = phi, call
+				}
+			}
+		}
+	})
+	if !c.Anchor("partial-message buffer", msgPhi != nil, "loop-carried local appended with the bytes read", posOf(rr)) {
+		return false
+	}
+	// the hand-off
+	var sendSel *ssa.Select
+	sendState := -1
+	an.AllInstrs(rr, func(in ssa.Instruction) {
+		if sel, ok := in.(*ssa.Select); ok {
+			for i, st := range sel.States {
+				if st.Dir == 1 {
+					if f, _ := an.LoadedField(st.Chan); f == readerF {
+						sendSel, sendState = sel, i
+					}
+				}
+			}
+		}
+		if snd, ok := in.(*ssa.Send); ok {
+			if f, _ := an.LoadedField(snd.Chan); f == readerF {
+				c.Ob("F2", "Conn.runReader", "hand-off is a select case", snd.Pos()).Fail("bare send on Conn.reader (C13.Z1)")
+			}
+		}
+	})
+	if !c.Anchor("hand-off on Conn.reader", sendSel != nil, "select case sending on c.reader", posOf(rr)) {
+		return false
+	}
+	c.Check(sendSel.States[sendState].Send == ssa.Value(appendCall), "F2", "Conn.runReader", "the message handed off is the accumulated buffer including the segment just read", sendSel.Pos(),
+		"c.reader <- append(msg, buff...)", "the value sent on Conn.reader is "+an.Render(sendSel.States[sendState].Send)+", not the buffer with the last segment appended")
+	head := msgPhi.Block()
+	var bad []string
+	for i, pred := range head.Preds {
+		v := msgPhi.Edges[i]
+		if !blockReachable(read.Block(), pred) && pred != read.Block() {
+			// entry edge
+			if !isFreshEmpty(v) {
+				bad = append(bad, "the buffer does not start empty: "+an.Render(v))
+			}
+			continue
+		}
+		switch {
+		case v == ssa.Value(appendCall):
+			// segment appended, loop continues
+		case isFreshEmpty(v):
+			// allowed only after the hand-off succeeded on this edge
+			if !(sendSel.Block().Dominates(pred) && pred != sendSel.Block()) {
+				bad = append(bad, "the buffer is reset on a way back to the loop head that does not pass the hand-off: the message read so far is dropped")
+			}
+		case v == ssa.Value(msgPhi):
+			bad = append(bad, fmt.Sprintf("a way back to the loop head (from block %s) keeps the old buffer: the bytes ReadBytes returned on that iteration are dropped", pred.Comment))
+		default:
+			bad = append(bad, "after a hand-off the buffer is re-bound to "+an.Render(v)+", which is not a fresh allocation: the next message can overwrite the one just delivered")
+		}
+	}
+	ob := c.Ob("F2", "Conn.runReader", "bytes read are never dropped; after a hand-off the buffer is a fresh allocation", head.Instrs[0].Pos())
+	if len(bad) > 0 {
+		ob.Fail("%s", bad[0])
+	} else {
+		ob.Ok("%d ways into the loop head: 1 initial, others append the segment or follow the hand-off with a fresh buffer", len(head.Preds))
+	}
+	// the error path leaves the loop
+	paths, _ := an.EnumPaths(rr, 4096)
+	errLoops := false
+	readErr := an.Render(read) + "#1 != nil"
+	for _, p := range paths {
+		if p.Loop && p.Has(readErr) {
+			errLoops = true
+		}
+	}
+	c.Check(!errLoops, "F2", "Conn.runReader", "a read error ends the reader", read.Pos(), "err != nil → return", "the loop continues after a read error: ReadBytes returns the bytes consumed so far together with the error, and they are lost")
+	// ---- F3 end-of-message test
+	seg := an.Render(read) + "#0"
+	okF3, seenSend := true, false
+	why := ""
+	for _, p := range paths {
+		if !p.Passes(sendSel) {
+			continue
+		}
+		seenSend = true
+		form1 := p.Has("3 <= len("+seg+")") && p.Has(`bytes.Equal(`+seg+`[0:3], []byte("10="))`)
+		form2 := p.Has(`bytes.HasPrefix(` + seg + `, []byte("10="))`)
+		if !form1 && !form2 {
+			okF3 = false
+			why = p.CondString()
+		}
+	}
+	c.Check(okF3 && seenSend, "F3", "Conn.runReader", "hand-off exactly when the segment starts with the CheckSum tag and '='", sendSel.Pos(), `len(seg) ≥ 3 ∧ seg[0:3] == "10="`, "the end-of-message test is not a start-anchored comparison of the segment with \"10=\": "+why)
+	// and conversely: a segment that passes the test is always handed off (no path with the test true that loops without the select)
+	for _, p := range paths {
+		if p.Loop && !p.Passes(sendSel) && (p.Has(`bytes.Equal(`+seg+`[0:3], []byte("10="))`) || p.Has(`bytes.HasPrefix(`+seg+`, []byte("10="))`)) {
+			c.Ob("F3", "Conn.runReader", "a complete message is always handed off", sendSel.Pos()).Fail("a path recognises the end of a message but continues reading without the hand-off: %s", p.CondString())
+		}
+	}
+	return true
+}
+
+// checkConnWrite: Conn.Write writes its argument with exactly one net.Conn.Write, not in a loop (a partial write followed by a
+// second attempt puts the head of the message on the stream twice), nil is returned only after that write, nothing is spawned.
+func checkConnWrite(c *core.Ctx, rule string) {
+	cw := c.Func("", "Conn.Write")
+	if !c.Anchor("Conn.Write", cw != nil, "(*Conn).Write", posOf(cw)) {
+		return
+	}
+	nW := 0
+	okArg, looped := true, false
+	var wcall *ssa.Call
+	for _, f := range append([]*ssa.Function{cw}, pkgHelpersOf(cw)...) {
+		an.AllInstrs(f, func(in ssa.Instruction) {
+			if call, ok := in.(*ssa.Call); ok && call.Call.IsInvoke() && call.Call.Method.Name() == "Write" && an.TypeIs(call.Call.Value.Type(), "net", "Conn") {
+				nW++
+				wcall = call
+				if f == cw && call.Call.Args[0] != ssa.Value(cw.Params[1]) {
+					okArg = false
+				}
+				if inLoop(call.Block()) {
+					looped = true
+				}
+			}
+		})
+	}
+	okSucc := false
+	if wcall != nil && wcall.Parent() == cw {
+		ps, _ := an.EnumPaths(cw, 64)
+		okSucc = true
+		for _, p := range ps {
+			if p.Return != nil && len(p.Results) == 1 && p.Results[0] == "nil" && !p.Passes(wcall) {
+				okSucc = false
+			}
+		}
+	}
+	c.Check(nW == 1 && okArg && okSucc && !looped && !hasGo(cw), rule, "Conn.Write", "writes the whole message with one net.Conn.Write on its success path", cw.Pos(), "conn.Write(msg) once, not in a loop",
+		fmt.Sprintf("%d socket writes; argument is the message: %v; success implies written: %v; inside a loop: %v (a second attempt after a partial write repeats the head of the message on the stream)", nW, okArg, okSucc, looped))
+}
+
+// checkServeIncomingHandsOver: ServeIncoming hands every message to the handler's queue; the only other way out is the handler's
+// own context being done (one blocking select with exactly these two cases — a default branch or a timer drops messages that
+// arrive while the handler is busy).
+func checkServeIncomingHandsOver(c *core.Ctx, rule string) {
+	si := c.Func("", "DefaultHandler.ServeIncoming")
+	inc := c.Field("", "DefaultHandler", "incoming")
+	if !c.Anchor("inbound hand-over", si != nil && inc != nil && len(si.Params) == 2, "DefaultHandler.ServeIncoming, incoming", posOf(si)) {
+		return
+	}
+	nSel, ok, plain := 0, false, false
+	an.AllInstrs(si, func(in ssa.Instruction) {
+		switch x := in.(type) {
+		case *ssa.Select:
+			nSel++
+			sends, dones := 0, 0
+			for _, st := range x.States {
+				if st.Dir == 1 && st.Send == ssa.Value(si.Params[1]) {
+					if f, _ := an.LoadedField(st.Chan); f == inc {
+						sends++
+					}
+				}
+				if st.Dir == 2 && doneContext(st.Chan) != "" {
+					dones++
+				}
+			}
+			ok = x.Blocking && sends == 1 && dones == len(x.States)-1
+		case *ssa.Send:
+			if f, _ := an.LoadedField(x.Chan); f == inc && x.X == ssa.Value(si.Params[1]) {
+				plain = true
+			}
+		}
+	})
+	c.Check((nSel == 1 && ok) || (nSel == 0 && plain), rule, "DefaultHandler.ServeIncoming", "waits for room in the handler's queue (or for the handler to stop); never drops", si.Pos(), "blocking select {incoming <- msg; <-ctx.Done()}",
+		fmt.Sprintf("ServeIncoming's hand-over is not one blocking select on the incoming queue and the handler's context (%d selects): with a default branch or a timeout, messages that arrive while the handler is busy are dropped before any handler sees them", nSel))
 }
